@@ -73,10 +73,13 @@ pub fn judge(events_path: &str) -> Leg {
             continue;
         }
         let ch = unhex(ev["chaddr_hex"].as_str().unwrap_or(""));
-        if ch.len() == 6 && u.dst_mac[..] != ch[..] {
-            leg.violation("C12/e2e/destination-mac-not-chaddr", format!("{:02x?} vs chaddr {:02x?}", u.dst_mac, ch), replay);
+        // The property fixes the IPv4 destination, not the Ethernet one; what it does say is that the client reads the reply,
+        // so the frame must be one the client's interface takes in: addressed to its hardware address or to everybody.
+        if ch.len() == 6 && u.dst_mac[..] != ch[..] && u.dst_mac != [0xff; 6] {
+            leg.violation("C12/e2e/destination-mac-neither-chaddr-nor-broadcast", format!("{:02x?} vs chaddr {:02x?}", u.dst_mac, ch), replay);
             continue;
         }
+        leg.count(if u.dst_mac == [0xff; 6] { "frames_to_the_ethernet_broadcast_address" } else { "frames_to_the_clients_hardware_address" }, 1);
         if m.xid as u64 != ev["xid"].as_u64().unwrap_or(0) || m.flags != flags || m.chaddr != ch {
             leg.violation("C12/e2e/reply-does-not-echo-request", format!("xid {:#x} flags {:#06x} chaddr {:02x?}", m.xid, m.flags, m.chaddr), replay);
             continue;
